@@ -9,7 +9,7 @@ from sim.det import statemod
 ID = "C08"
 LEVEL = "exploration"
 TECHNIQUE = "deterministic simulation: storage rows decoded and compared with the live entries after every simulated engine step; reload equivalence; seeded codec round-trip"
-RULE = ("family 'engine': the C01 run families; after every event-intake step, every sync step and at quiet the rows stored under the sync's tag are decoded and compared "
+RULE = ("family 'engine': the C01 run families, with the event feed additionally breaking (CloudTemporaryError) after 0-2 events of an intake in a third of the split-intake steps, so that batches are abandoned half-way; after every event-intake step, every sync step and at quiet the rows stored under the sync's tag are decoded and compared "
         "with the live non-trash entries (exactly one row per entry, equal decoded content, no orphan row) and, on a sample of boundaries, a second SyncState is built from a copy "
         "of the rows and compared (entries, id/path lookups, pending set). family 'codec' (generated inputs, not simulated runs): SyncEntry.serialize -> deserialize round trip over "
         "hash shapes bytes/str/int/nested tuple/dict, unicode paths, None fields, every Exists/IgnoreReason incl. the corrupt marker with its saved value, and legacy rows "
@@ -212,7 +212,7 @@ def generate(rng, tier, index):
     flav = rng.choice(ALL_FLAVOURS)
     style = weighted(rng, (("eager", 2), ("batched", 4), ("bursty", 2), ("split", 4)))
     case = {"prop": ID, "cfg": {"flavour": flav}, "style": style, "family": style}
-    return drive(case, lambda ex: gen_history(rng, ex, rng.randint(1, 7), style=style, mix=random_mix(rng)), _verdict, setup=_setup, generating=True)
+    return drive(case, lambda ex: gen_history(rng, ex, rng.randint(1, 7), style=style, mix=random_mix(rng), midfail=0.35), _verdict, setup=_setup, generating=True)
 
 
 def replay(case):
